@@ -161,8 +161,9 @@ func vpC03GenWriter(t *rapid.T) *vpC03StreamSpec {
 var vpC03Statuses = []int{200, 200, 200, 200, 201, 202, 203, 204, 204, 205, 206, 226, 300, 301, 302, 304, 304, 400, 404, 418, 451, 500, 503, 599, 600, 700, 999}
 
 type vpC03GenEnv struct {
-	method string
-	wbuf   int
+	method    string
+	wbuf      int
+	forceBody bool // draw a body-producing instruction
 }
 
 func vpC03GenOp(t *rapid.T, m *vpC03Model, g vpC03GenEnv) vpC03Op {
@@ -173,6 +174,19 @@ func vpC03GenOp(t *rapid.T, m *vpC03Model, g vpC03GenEnv) vpC03Op {
 		for i := 0; i < w; i++ {
 			kinds = append(kinds, k)
 		}
+	}
+	if g.forceBody && !trailers {
+		add("setbody", 3)
+		add("setbodystring", 1)
+		add("raw", 2)
+		add("stream", 9)
+		add("sw", 4)
+		add("success", 1)
+		if !m.IsStream {
+			add("append", 2)
+			add("write", 2)
+		}
+		return vpC03FillOp(t, m, g, rapid.SampledFrom(kinds).Draw(t, "bodyOp"))
 	}
 	if !skipLocked {
 		add("status", 4)
@@ -221,7 +235,11 @@ func vpC03GenOp(t *rapid.T, m *vpC03Model, g vpC03GenEnv) vpC03Op {
 			add("trailer", 6)
 		}
 	}
-	o := vpC03Op{Kind: rapid.SampledFrom(kinds).Draw(t, "op")}
+	return vpC03FillOp(t, m, g, rapid.SampledFrom(kinds).Draw(t, "op"))
+}
+
+func vpC03FillOp(t *rapid.T, m *vpC03Model, g vpC03GenEnv, kind string) vpC03Op {
+	o := vpC03Op{Kind: kind}
 	if m.Raw && (o.Kind == "append" || o.Kind == "appendstring" || o.Kind == "write" || o.Kind == "writestring") && vpKnownOpen(vpC03KeyAppendRaw) {
 		vpExclude(vpC03KeyAppendRaw)
 		o.Kind = "setbody"
@@ -325,13 +343,15 @@ func vpC03GenOp(t *rapid.T, m *vpC03Model, g vpC03GenEnv) vpC03Op {
 func vpC03GenProg(t *rapid.T, g vpC03GenEnv) vpC03Prog {
 	var p vpC03Prog
 	n := rapid.IntRange(1, 8).Draw(t, "nops")
+	bodyAt := rapid.IntRange(-1, n+2).Draw(t, "bodyAt") % n // mostly: one instruction is forced to produce a body
 	m := vpC03NewModel()
 	for i := 0; i < n; i++ {
+		g.forceBody = i == bodyAt
 		o := vpC03GenOp(t, m, g)
 		m.apply(o)
 		p.Ops = append(p.Ops, o)
 	}
-	if rapid.IntRange(0, 3).Draw(t, "compress") == 0 {
+	if rapid.IntRange(0, 2).Draw(t, "compress") == 0 {
 		p.Compress = rapid.IntRange(1, 3).Draw(t, "compressKind")
 	}
 	return p
@@ -356,9 +376,8 @@ func vpC03GenReq(t *rapid.T, wbuf int) vpC03Req {
 	}
 	for try := 0; ; try++ {
 		r.Prog = vpC03GenProg(t, vpC03GenEnv{method: r.Method, wbuf: wbuf})
-		p := vpC03Predict(r)
-		if p.NoBody && p.unknownSizeStream() && vpKnownOpen(vpC03KeyNoBodyChunked) {
-			vpExclude(vpC03KeyNoBodyChunked)
+		if key := vpC03KnownClass(vpC03Predict(r)); key != "" && vpKnownOpen(key) {
+			vpExclude(key)
 			if try < 8 {
 				continue
 			}
@@ -372,6 +391,42 @@ func vpC03GenReq(t *rapid.T, wbuf int) vpC03Req {
 		r.AcceptEnc = rapid.SampledFrom([]string{"", "", "gzip", "br"}).Draw(t, "acceptEnc")
 	}
 	return r
+}
+
+// vpC03KnownClass says whether a (request, program) falls into the input class of one of the open known
+// findings that are delimited on the FINAL state of the program (the other classes are excluded where the
+// instruction is drawn). It uses the model's mirror of fasthttp's size bookkeeping.
+func vpC03KnownClass(p vpC03Pred) string {
+	m := p.M
+	if !m.IsStream {
+		return ""
+	}
+	if p.NoBody {
+		// a response without body that fasthttp will frame as chunked: stray CRLF / trailer section
+		if m.implCL < 0 || p.Compress {
+			return vpC03KeyNoBodyChunked
+		}
+		return ""
+	}
+	implDeclared := m.implCL
+	if implDeclared < 0 {
+		implDeclared = -1
+	}
+	known := false
+	for _, c := range m.Cands {
+		if c == implDeclared {
+			known = true
+		}
+	}
+	if !known || (m.implCL >= 0 && !m.implCLBytes) {
+		// the size the handler declared was dropped because it was declared while the status was 204/304
+		return vpC03KeyNoBodyStatus
+	}
+	if m.implCL >= 0 && m.implTE {
+		// Content-Length set by hand while the Transfer-Encoding: chunked field of an unknown-size stream is still there
+		return vpC03KeyHandCLChunked
+	}
+	return ""
 }
 
 func vpC03ReqKey(r vpC03Req) string {
@@ -457,6 +512,14 @@ func vpC03Probes() {
 		short := &vpC03StreamSpec{Content: []byte("only-9-b."), Declared: 20, Policy: "short", Reader: vpC03RdPlain}
 		f = vpC03ProbeRun([]vpC03Req{vpC03Get(vpC03Op{Kind: "setbody", B: []byte("first")}), vpC03Get(vpC03Op{Kind: "stream", Stream: short})})
 		vpProbe(vpC03KeyDropsBuffered, f != "", f)
+		// (5) stream installed while the status is 304, status changed to 200 afterwards
+		exact := &vpC03StreamSpec{Content: vpC03Fill(0, 5000), Declared: 5000, Policy: "exact", Reader: vpC03RdPlain}
+		f = vpC03ProbeRun([]vpC03Req{vpC03Get(vpC03Op{Kind: "status", Code: 304}, vpC03Op{Kind: "stream", Stream: exact}, vpC03Op{Kind: "status", Code: 200}), tail})
+		vpProbe(vpC03KeyNoBodyStatus, f != "", f)
+		// (6) Content-Length set by hand on a response whose stream was declared with unknown size
+		unk := &vpC03StreamSpec{Content: []byte("hello world"), Declared: -1, Policy: "unknown", Reader: vpC03RdPlain}
+		f = vpC03ProbeRun([]vpC03Req{vpC03Get(vpC03Op{Kind: "stream", Stream: unk}, vpC03Op{Kind: "handcl", V: "11"}), tail})
+		vpProbe(vpC03KeyHandCLChunked, f != "", f)
 	})
 }
 
